@@ -4,7 +4,7 @@ import P2.Drv.Util
 Requests (the model answers for the code as it is now = `Variant.fixed`):
 
   `T <id_0> … <id_{n-1}> | <macro>*`    tracker-level schedule on the real `TaskTracker`
-       macro = `T<t>` `S<t>` `C<t>` `G<t>` `W<t>` `Pr` `Pm` `Ps` `Pn`   (see P2/Model/Tasks.lean)
+       macro = `T<t>` `B<t>` `S<t>` `C<t>` `G<t>` `W<t>` `Pr` `Pm` `Ps` `Pn`   (see P2/Model/Tasks.lean)
        answer: one outcome word per macro, ` | `, then one final outcome per submitter after the drain
   `P <id_0> … <id_{n-1}> [!k]`          real `Pipeline` thread / free-running threads: final outcomes (ids only);
                                          `!k` = the pipeline thread was observed to die on submitter k's event
@@ -20,6 +20,7 @@ def parseMacro (t : String) : Option Macro :=
   | ['P', 's'] => some .Ps
   | ['P', 'n'] => some .Pn
   | 'T' :: r => (String.ofList r).toNat?.map .T
+  | 'B' :: r => (String.ofList r).toNat?.map .B
   | 'S' :: r => (String.ofList r).toNat?.map .S
   | 'C' :: r => (String.ofList r).toNat?.map .C
   | 'G' :: r => (String.ofList r).toNat?.map .G
